@@ -187,18 +187,15 @@ func signExtend(value int64, bits int) int64 {
 
 // worker for findBit, not intended to be called directly
 func findBitInByte(b byte, searchBit bool, testBit, stopBit uint8) int {
-	if (searchBit && b > 0) || (!searchBit && b < 0xFF) {
-		// found a byte that has the search bit
-		// this loop is guaranteed to reach a match
-		bitOffset := 0
-		for {
-			set := (b & testBit) > 0
-			if set == searchBit {
-				return bitOffset
-			}
-			testBit >>= 1
-			bitOffset++
+	// look at the bits from testBit down to stopBit (inclusive), nothing after it
+	bitOffset := 0
+	for testBit != 0 && testBit >= stopBit {
+		set := (b & testBit) > 0
+		if set == searchBit {
+			return bitOffset
 		}
+		testBit >>= 1
+		bitOffset++
 	}
 	return -1
 }
@@ -209,6 +206,19 @@ func findBitInByte(b byte, searchBit bool, testBit, stopBit uint8) int {
 func findBit(bytes []byte, startIndex, endIndex, width int, searchBit, noEnd bool) int {
 	bits := len(bytes) * 8
 	end := bits - 1
+
+	// an index beyond the value acts like the nearest end of it (and the
+	// conversion to bits below cannot overflow)
+	if startIndex > bits {
+		startIndex = bits
+	} else if startIndex < -bits {
+		startIndex = -bits
+	}
+	if endIndex > bits {
+		endIndex = bits
+	} else if endIndex < -bits {
+		endIndex = -bits
+	}
 
 	// convert to bits and determine negative offsets
 	var startBit, endBit int
@@ -226,7 +236,9 @@ func findBit(bytes []byte, startIndex, endIndex, width int, searchBit, noEnd boo
 	// enforce boundaries
 	if startBit < 0 {
 		startBit = 0
-	} else if startBit > end {
+	}
+	if startBit > end {
+		// nothing to search (also an empty value with a negative start)
 		return -1
 	}
 	if endBit < startBit {
